@@ -668,7 +668,8 @@ impl<'a> VisitMut for Rewriter<'a> {
         for st in old.into_iter() {
             let mut replaced = false;
             // R26: `debug_assert!(c)` / `debug_assert_eq!(a, b)` / `debug_assert_ne!(a, b)` become a proof obligation on the
-            // evaluated condition (`let vx_da = c; proof { assert(vx_da); }`): a debug build panics exactly when it is false
+            // evaluated condition (`if vx_debug_assertions() { let vx_da = c; proof { assert(vx_da); } }`): a debug build panics
+            // exactly when it is false, a release build does not evaluate it at all
             if let Stmt::Macro(sm) = &st {
                 let mname = sm.mac.path.segments.last().map(|x| x.ident.to_string()).unwrap_or_default();
                 if mname == "debug_assert" || mname == "debug_assert_eq" || mname == "debug_assert_ne" {
@@ -682,8 +683,10 @@ impl<'a> VisitMut for Rewriter<'a> {
                     };
                     let nm = format_ident!("vx_da{}", self.counter);
                     self.counter += 1;
-                    b.stmts.push(parse_quote! { let #nm: bool = #cond; });
-                    b.stmts.push(parse_quote! { vx_debug_assert!(#nm); });
+                    // the condition is evaluated only in builds with debug assertions: `vx_debug_assertions()` is an
+                    // unconstrained bool, so the function is verified for both profiles (a condition with an effect the
+                    // postcondition needs - `debug_assert!(g.update_edge(..).is_ok())` - fails in the profile without it)
+                    b.stmts.push(parse_quote! { if vx_debug_assertions() { let #nm: bool = #cond; vx_debug_assert!(#nm); } });
                     self.fired.push("R26-debug-assert-as-obligation".into());
                     replaced = true;
                 }
